@@ -246,7 +246,7 @@ def milp_points(rws, bounds, objectives):
     for c in objectives:
         try:
             r = milp(c=-np.array(c, dtype=float), constraints=cons, integrality=np.ones(ncol), bounds=bnd,
-                     options={"time_limit": 5.0})
+                     options={"time_limit": 1.0})
         except Exception:
             continue
         if r is not None and r.x is not None:
